@@ -170,15 +170,16 @@ func (r *runner) testEnv(reportDir string, extra ...string) []string {
 }
 
 type modeStats struct {
-	Execs       int64   `json:"execs"`
-	OK          int64   `json:"ok"`
-	Skipped     int64   `json:"skipped"`
-	Panics      int64   `json:"panics"`
-	AllocOver   int64   `json:"alloc_over"`
-	MaxAlloc    uint64  `json:"max_alloc"`
-	MaxAllocLen int     `json:"max_alloc_len"`
-	MaxFrac     float64 `json:"max_frac_of_bound"`
-	MaxPerByte  float64 `json:"max_alloc_per_input_byte"`
+	Execs        int64   `json:"execs"`
+	OK           int64   `json:"ok"`
+	Skipped      int64   `json:"skipped"`
+	Panics       int64   `json:"panics"`
+	AllocOver    int64   `json:"alloc_over"`
+	AllocUnsited int64   `json:"alloc_over_site_unknown"`
+	MaxAlloc     uint64  `json:"max_alloc"`
+	MaxAllocLen  int     `json:"max_alloc_len"`
+	MaxFrac      float64 `json:"max_frac_of_bound"`
+	MaxPerByte   float64 `json:"max_alloc_per_input_byte"`
 }
 
 type report struct {
@@ -218,6 +219,7 @@ func readStats(dir string) map[string]*modeStats {
 			t.Skipped += v.Skipped
 			t.Panics += v.Panics
 			t.AllocOver += v.AllocOver
+			t.AllocUnsited += v.AllocUnsited
 			if v.MaxAlloc > t.MaxAlloc {
 				t.MaxAlloc, t.MaxAllocLen = v.MaxAlloc, v.MaxAllocLen
 			}
@@ -398,25 +400,50 @@ func classifyCrash(target, out string) (key, msg, stack string) {
 }
 
 // handleCrasher replays an engine-saved crasher alone and reports it.
-func (r *runner) handleCrasher(target, crasherRel string, fo fuzzOutcome) {
+// It returns true when the stop was benign (engine wall-clock timer on a loaded machine).
+func (r *runner) handleCrasher(target, crasherRel string, fo fuzzOutcome, workerDump string) (benign bool) {
 	c := r.c
 	c.Count("engine_crashers", 1)
 	b, err := os.ReadFile(filepath.Join(r.work, crasherRel))
 	if err != nil {
 		c.Broken("engine reported crasher %s but the file is unreadable: %v", crasherRel, err)
-		return
+		return false
 	}
 	corpus := string(b)
 	origin := "engine crasher " + filepath.Base(crasherRel)
-	// 1. the fuzz run's own output may already hold the crash dump
-	key, msg, stack := classifyCrash(target, fo.res.out)
+	// 1. the dead worker's stderr log holds the runtime's crash dump; 2. replay alone
+	key, msg, stack := classifyCrash(target, workerDump)
 	res, reps := r.runSingle(target, corpus, "crash", 45*time.Minute)
+	note := "reproduced when replayed alone"
 	if k2, m2, s2 := classifyCrash(target, res.out); k2 != "" {
 		key, msg, stack = k2, m2, s2
+	} else if key != "" {
+		note = "NOT reproduced when the saved input is replayed alone in a fresh process (state accumulated in the worker, or the engine attributed the death to the wrong input)"
+	}
+	if strings.Contains(msg, "deadlocked!") && res.code == 0 {
+		// Go's fuzz engine kills a worker whose single execution takes more than
+		// 10 s of WALL clock (internal/fuzz.RunFuzzWorker: panic("deadlocked!")).
+		// On a loaded machine that fires for slow-but-finite inputs. It is only a
+		// suspect: the input was just re-run alone under this check's own
+		// CPU-time watchdog and returned, so it is counted, not reported.
+		hung := false
+		for _, x := range reps { // what this check's own oracles say about the input
+			if x.Kind == "hang" {
+				hung = true
+				r.confirmHang(x, origin)
+				continue
+			}
+			c.Fail(x.Key, fmt.Sprintf("%s mode=%s input_len=%d: %s: %s", x.Target, x.Mode, x.InputLen, x.Kind, x.Msg), replayCase(x.Target, x.Corpus, origin))
+		}
+		if !hung {
+			c.Count("engine_wallclock_timer_kills_not_confirmed", 1)
+			return true
+		}
+		return false
 	}
 	switch {
 	case key != "":
-		c.Fail(key, fmt.Sprintf("%s: worker process died: %s | %s", target, msg, firstLines(stackAfterPanic(stack), 8)), replayCase(target, corpus, origin))
+		c.Fail(key, fmt.Sprintf("%s: worker process died: %s | %s | %s", target, msg, firstLines(stackAfterPanic(stack), 8), note), replayCase(target, corpus, origin))
 	case len(reps) > 0:
 		for _, x := range reps {
 			if x.Kind == "hang" {
@@ -430,6 +457,7 @@ func (r *runner) handleCrasher(target, crasherRel string, fo fuzzOutcome) {
 	default:
 		c.Fail(fuzzkey.Key(target, "fail", "", "unclassified"), fmt.Sprintf("%s: crasher fails on replay with unclassified output: %s", target, tail(res.out, 600)), replayCase(target, corpus, origin))
 	}
+	return false
 }
 
 func countFiles(dir string) int {
@@ -459,6 +487,9 @@ type targetResult struct {
 	MaxAllocLen     int     `json:"max_alloc_input_len"`
 	MaxFrac         float64 `json:"max_fraction_of_alloc_bound"`
 	MaxPerByte      float64 `json:"max_alloc_per_input_byte_ge256"`
+	ModeSkips       int64   `json:"inputs_skipped_by_a_mode"`
+	Restarts        int     `json:"engine_restarts_after_crash"`
+	BenignRestarts  int     `json:"engine_restarts_after_unconfirmed_wallclock_kill"`
 	WallS           float64 `json:"wall_s"`
 }
 
@@ -503,59 +534,108 @@ func trackAlloc(tr *targetResult, st *modeStats) {
 	}
 }
 
-func (r *runner) fuzzRun(target string, budget, workers int, tr *targetResult) {
-	c := r.c
-	rep := filepath.Join(c.Scratch, "reports", target+"-fuzz")
-	c.Must(os.MkdirAll(rep, 0o755), "mkdir rep")
-	before := map[string]bool{}
-	es, _ := os.ReadDir(filepath.Join(r.work, "testdata", "fuzz", target))
-	for _, e := range es {
-		before[e.Name()] = true
-	}
-	t0 := time.Now()
-	res := runCmd(r.work, r.testEnv(rep), 3*time.Hour, r.bin, "-test.run", "^$", "-test.fuzz", "^"+target+"$",
-		"-test.fuzztime", fmt.Sprintf("%dx", budget), "-test.fuzzcachedir", r.cache, "-test.parallel", strconv.Itoa(workers), "-test.fuzzminimizetime", "0s")
-	tr.WallS = time.Since(t0).Seconds()
-	fo := parseFuzz(res)
-	tr.Budget, tr.Execs, tr.NewInteresting = budget, fo.execs, fo.newInteresting
-	tr.CorpusAfter = tr.Seeds + countFiles(filepath.Join(r.cache, target))
-	for k, st := range readStats(rep) {
-		tr.GuardedDecodes += st.Execs
-		tr.Accepted += st.OK
-		tr.PanicsRecovered += st.Panics
-		trackAlloc(tr, st)
-		if st.OK > 0 {
-			c.Eval(k, true)
-		} else {
-			c.Eval(k, false)
-		}
-		c.Seen("decode_modes", k)
-	}
-	if res.timeout {
-		c.Inconclusive("%s: fuzz run timed out after %v", target, res.wall)
-		return
-	}
-	hangs := r.failReports(rep, "fuzzing")
-	for _, h := range hangs {
-		r.confirmHang(h, "fuzzing")
-	}
-	// engine-saved crashers (worker died, or t.Fatal of the watchdog)
-	es, _ = os.ReadDir(filepath.Join(r.work, "testdata", "fuzz", target))
-	for _, e := range es {
-		if before[e.Name()] {
+// workerCrashDump returns the runtime crash dump a dead fuzz worker left in
+// its stderr log (see TestMain of verif/fuzz), if any.
+func workerCrashDump(rep string) string {
+	logs, _ := filepath.Glob(filepath.Join(rep, "stderr-*.log"))
+	sort.Strings(logs)
+	for _, l := range logs {
+		b, err := os.ReadFile(l)
+		if err != nil || len(b) == 0 {
 			continue
 		}
-		rel := filepath.Join("testdata", "fuzz", target, e.Name())
-		if len(hangs) > 0 && strings.Contains(res.out, "VERIF-HANG") {
-			continue // that crasher file is the watchdog suspect handled above
+		s := string(b)
+		if strings.Contains(s, "\npanic: ") || strings.HasPrefix(s, "panic: ") || strings.Contains(s, "fatal error: ") || strings.Contains(s, "runtime: out of memory") {
+			return s
 		}
-		r.handleCrasher(target, rel, fo)
 	}
-	if fo.failed && len(hangs) == 0 && fo.crasher == "" {
-		if key, msg, stack := classifyCrash(target, res.out); key != "" {
-			c.Fail(key, fmt.Sprintf("%s: fuzz process died: %s | %s", target, msg, firstLines(stackAfterPanic(stack), 8)), map[string]any{"target": target, "output": tail(res.out, 3000)})
-		} else {
-			c.Broken("%s: fuzz run failed without crasher: %s", target, tail(res.out, 1500))
+	return ""
+}
+
+const maxRestarts = 4
+
+// fuzzRun fuzzes one target for its execution budget. The engine stops at the
+// first failing input; a worker death is classified and reported, the crasher
+// is set aside and fuzzing resumes with the remaining budget (at most
+// maxRestarts times) so that one defect does not end the exploration.
+func (r *runner) fuzzRun(target string, budget, workers int, tr *targetResult) {
+	c := r.c
+	tr.Budget = budget
+	t0 := time.Now()
+	defer func() { tr.WallS = time.Since(t0).Seconds() }()
+	corpusDir := filepath.Join(r.work, "testdata", "fuzz", target)
+	aside := filepath.Join(c.Scratch, "crashers", target)
+	for attempt := 0; ; attempt++ {
+		remaining := budget - tr.Execs
+		if remaining <= 0 {
+			break
+		}
+		rep := filepath.Join(c.Scratch, "reports", fmt.Sprintf("%s-fuzz-%d", target, attempt))
+		c.Must(os.MkdirAll(rep, 0o755), "mkdir rep")
+		before := map[string]bool{}
+		es, _ := os.ReadDir(corpusDir)
+		for _, e := range es {
+			before[e.Name()] = true
+		}
+		res := runCmd(r.work, r.testEnv(rep), 3*time.Hour, r.bin, "-test.run", "^$", "-test.fuzz", "^"+target+"$",
+			"-test.fuzztime", fmt.Sprintf("%dx", remaining), "-test.fuzzcachedir", r.cache, "-test.parallel", strconv.Itoa(workers), "-test.fuzzminimizetime", "0s")
+		fo := parseFuzz(res)
+		tr.Execs += fo.execs
+		tr.NewInteresting += fo.newInteresting
+		tr.CorpusAfter = tr.Seeds + countFiles(filepath.Join(r.cache, target))
+		for k, st := range readStats(rep) {
+			tr.GuardedDecodes += st.Execs
+			tr.Accepted += st.OK
+			tr.PanicsRecovered += st.Panics
+			tr.ModeSkips += st.Skipped
+			if st.AllocUnsited > 0 {
+				c.Inconclusive("%s: %d allocation-bound exceedances could not be attributed to a site (profiled re-run did not finish) and were not reported", k, st.AllocUnsited)
+			}
+			trackAlloc(tr, st)
+			c.Eval(k, st.OK > 0)
+			c.Seen("decode_modes", k)
+		}
+		if res.timeout {
+			c.Inconclusive("%s: fuzz run timed out after %v", target, res.wall)
+			return
+		}
+		hangs := r.failReports(rep, "fuzzing")
+		for _, h := range hangs {
+			r.confirmHang(h, "fuzzing")
+		}
+		if !fo.failed {
+			break
+		}
+		// the engine stopped on a failing input
+		var newFiles []string
+		es, _ = os.ReadDir(corpusDir)
+		for _, e := range es {
+			if !before[e.Name()] {
+				newFiles = append(newFiles, e.Name())
+			}
+		}
+		if len(hangs) > 0 {
+			return // watchdog verdicts were produced by confirmHang; the budget is not resumed after a hang
+		}
+		if len(newFiles) == 0 {
+			if key, msg, stack := classifyCrash(target, res.out+"\n"+workerCrashDump(rep)); key != "" {
+				c.Fail(key, fmt.Sprintf("%s: fuzz process died: %s | %s", target, msg, firstLines(stackAfterPanic(stack), 8)), map[string]any{"target": target, "output": tail(res.out, 3000)})
+			} else {
+				c.Broken("%s: fuzz run failed without crasher: %s", target, tail(res.out, 1500))
+			}
+			return
+		}
+		_ = os.MkdirAll(aside, 0o755)
+		for _, nf := range newFiles {
+			if r.handleCrasher(target, filepath.Join("testdata", "fuzz", target, nf), fo, workerCrashDump(rep)) {
+				tr.BenignRestarts++
+			} else {
+				tr.Restarts++
+			}
+			_ = os.Rename(filepath.Join(corpusDir, nf), filepath.Join(aside, fmt.Sprintf("%d-%s", attempt, nf)))
+		}
+		if tr.Restarts > maxRestarts || tr.BenignRestarts > 4*maxRestarts {
+			break
 		}
 	}
 }
@@ -655,12 +735,28 @@ func run(c *vf.Ctx) {
 	}
 	c.Extra("seed_kinds", kinds)
 
-	// ---- per-target seed run + fuzz run; at most 6 fuzz workers in total
-	unit := c.N(5000, 50000)
+	// ---- the repository's own fuzz targets, on a scratch copy: runs alongside (1 target x 2 workers)
+	repoDone := make(chan struct{})
+	go func() {
+		defer close(repoDone)
+		defer func() {
+			if p := recover(); p != nil {
+				c.Broken("panic in the repository-target phase: %v", p)
+			}
+		}()
+		if !strings.Contains(skip, "repo") {
+			r.repoTargets()
+		}
+	}()
+	defer func() { <-repoDone }()
+
+	// ---- per-target seed run + fuzz run: 2 targets x 2 workers (+2 above = at most 6 fuzz workers)
+	unit := c.N(4000, 40000)
 	results := make([]*targetResult, len(plan))
 	for i, p := range plan {
 		results[i] = &targetResult{Target: p.name, Seeds: sd.count[p.name], SeedBytes: sd.bytes[p.name]}
 	}
+	tFuzz := time.Now()
 	vf.Parallel(len(plan), 2, func(i int) {
 		p := plan[i]
 		tr := results[i]
@@ -669,10 +765,11 @@ func run(c *vf.Ctx) {
 		}
 		r.seedRun(p.name, tr)
 		if !strings.Contains(skip, "fuzz") {
-			r.fuzzRun(p.name, unit*p.weight, 3, tr)
+			r.fuzzRun(p.name, unit*p.weight, 2, tr)
 		}
 	})
 
+	c.Extra("fuzz_phase_wall_s", time.Since(tFuzz).Seconds())
 	totalExecs := 0
 	for i, tr := range results {
 		c.Floor("seeds "+tr.Target, tr.Seeds, 3)
@@ -701,10 +798,6 @@ func run(c *vf.Ctx) {
 		r.racePass(results)
 	}
 
-	// ---- the repository's own fuzz targets, on a scratch copy
-	if !strings.Contains(skip, "repo") {
-		r.repoTargets()
-	}
 }
 
 // replay re-executes the single input of a replay file.
